@@ -286,7 +286,7 @@ class GeoIndex:
         if not return_distance:
             return pairs
 
-        if not pairs.any():
+        if not pairs.size:
             return pairs, pairs
 
         distances = np.hstack([
